@@ -517,20 +517,25 @@ void coefficient_lcm(const lp_polynomial_context_t* ctx, coefficient_t* lcm, con
     coefficient_t gcd;
     coefficient_construct(ctx, &gcd);
     coefficient_gcd(ctx, &gcd, C1, C2);
+    // lcm can be one of the inputs: compute in a temporary
+    coefficient_t result;
+    coefficient_construct(ctx, &result);
     if (coefficient_is_one(ctx, &gcd)) {
-      coefficient_mul(ctx, lcm, C1, C2);
+      coefficient_mul(ctx, &result, C1, C2);
     } else {
       if (coefficient_cmp_type(ctx, C1, C2) <= 0) {
-        coefficient_div(ctx, lcm, C1, &gcd);
-        coefficient_mul(ctx, lcm, lcm, C2);
+        coefficient_div(ctx, &result, C1, &gcd);
+        coefficient_mul(ctx, &result, &result, C2);
       } else {
-        coefficient_div(ctx, lcm, C2, &gcd);
-        coefficient_mul(ctx, lcm, lcm, C1);
+        coefficient_div(ctx, &result, C2, &gcd);
+        coefficient_mul(ctx, &result, &result, C1);
       }
     }
-    if (coefficient_lc_sgn(ctx, lcm) < 0) {
-      coefficient_neg(ctx, lcm, lcm);
+    if (coefficient_lc_sgn(ctx, &result) < 0) {
+      coefficient_neg(ctx, &result, &result);
     }
+    coefficient_swap(&result, lcm);
+    coefficient_destruct(&result);
     coefficient_destruct(&gcd);
   }
 
